@@ -263,10 +263,18 @@ class ResourceManager:
             else:
                 assert False # :nocov:
 
-        value = resolve(resource,
-            *merge_options(resource, dir, xdr),
-            path=(f"{resource.name}_{resource.number}",),
-            attrs=resource.attrs)
+        # A request that is refused must leave the allocation unchanged, including the pins, clock
+        # constraints and buffers recorded for the components resolved before the conflict was found.
+        saved_state = (OrderedDict(self._phys_reqd), SignalDict(self._clocks.items()),
+                       dict(self._io_clocks), list(self._pins))
+        try:
+            value = resolve(resource,
+                *merge_options(resource, dir, xdr),
+                path=(f"{resource.name}_{resource.number}",),
+                attrs=resource.attrs)
+        except Exception:
+            self._phys_reqd, self._clocks, self._io_clocks, self._pins = saved_state
+            raise
         self._requested[resource.name, resource.number] = value
         return value
 
